@@ -27,7 +27,7 @@ ASSUMPTIONS = [
 COMPONENTS = {"real": ["TradingEnv.step", "Broker.rebalance/net_liquidation_value", "rewards.*", "Transmitter", "Exchange"],
               "harness": ["shock generator", "independent Fraction ledger"], "stub": []}
 PROBE_FLOORS = {"ruin_on_arrival": 21, "ruin_post_trade": 100, "ruin_exactly_zero": 20, "ruin_on_first_step": 36,
-                "ruin_by_own_costs": 50, "steps_attempted_after_end": 300, "recovery_after_ruin": 50, "reset_after_ruin_works": 20, "ruin_inside_spread_band": 12, "end_of_episode_handler_failed": 10, "ruin_episode_replayed": 120, "insolvent_only_after_interest_is_charged": 25}
+                "ruin_by_own_costs": 50, "steps_attempted_after_end": 300, "recovery_after_ruin": 50, "reset_after_ruin_works": 20, "ruin_inside_spread_band": 12, "end_of_episode_handler_failed": 10, "ruin_episode_replayed": 120, "insolvent_only_after_interest_is_charged": 25, "ruin_by_a_quote_of_exactly_zero": 18}
 
 
 def generate(rng, i):
@@ -128,8 +128,19 @@ def generate(rng, i):
         "folds": None, "markov": False, "warmup_s": None, "episode_length": None, "sampling_span": None,
         "ts_type": "datetime", "state": {"type": "rec", "feature": rng.random() < 0.3, "k": 2},
     }
-    if rng.random() < 0.15:
-        env["delay"] = 1
+    wipeout = False
+    if (not exact) and (not band) and (not interest_arm) and (not recovery) and phase == "nonlatent" and w > 1 and rng.random() < 0.25:
+        # the asset is wiped out: after the shock it is quoted at exactly 0.0 (a legal quote), and the quotes are
+        # handed over as a table of prices (Transmitter.add_prices)
+        wipeout = True
+        for e in env["events"]:
+            if e["type"] == "nbbo" and e["c"] == 0 and abs((e["bid"] + e["ask"]) / 2 - p) > 1e-9 * p:
+                e["bid"] = e["ask"] = 0.0
+        gen_epi.route_quotes_via_add_prices(rng, env, spread)
+    elif (not exact) and rng.random() < 0.15:
+        gen_epi.route_quotes_via_add_prices(rng, env, spread)
+    if rng.random() < 0.15 and not wipeout:
+        env["delay"] = 1        # (not with a wipe-out: a solvent, still uninvested account would be asked to buy at a price of zero)
     if rng.random() < 0.15:
         # fault: user code that handles the end-of-episode notification fails (e.g. it values a broke account)
         env["state"]["crash_on"] = ["EventDone"]
@@ -154,7 +165,7 @@ def generate(rng, i):
         for k in range(rng.randint(1, 2)):
             script.append({"op": "step", "env": 0, "action": [0.0] * (2 if two else 1)})
     return {"kind": "epi", "envs": [env], "clock0": "1999-01-01T00:00:00", "script": script, "prng": rng.randrange(2 ** 31),
-            "meta": {"phase": phase, "w": w, "f": f, "kshock": kshock, "exact": exact, "recovery": recovery, "band": band, "replay": replay, "interest_arm": interest_arm}}
+            "meta": {"phase": phase, "w": w, "f": f, "kshock": kshock, "exact": exact, "recovery": recovery, "band": band, "replay": replay, "interest_arm": interest_arm, "wipeout": wipeout}}
 
 
 def execute(scenario):
@@ -181,9 +192,29 @@ def execute(scenario):
         ended = bool(ep["reset"].get("done"))
         ended_how = "reset" if ended else None
         tol = ledger.tol()
+        # quotes as the scenario says they were delivered (the delivery model), not as the library's books show them:
+        # a quote that was lost on the way must not hide an insolvency
+        spec_g = h.gen_specs[ep.get("gen", 0)]
+        dmodel = Delivery(spec_g, gen_epi.auto_disc(spec_g))
+        steps_model = epicheck.visited_steps(dmodel, spec_g, ep)
+
+        def model_books(lib_books, k_, at_end):
+            if steps_model is None or k_ is None or k_ >= len(steps_model) - 1:
+                return lib_books
+            out = dict(lib_books)
+            for sym, b in epicheck.expected_books(dmodel, h, steps_model, k_, at_step_end=at_end).items():
+                if sym != "__rate__":
+                    out[sym] = b
+            return out
+
         for st in ep["steps"]:
             k = st["k"]
             ex = [r for r in recs if r["kind"] == "EXEC" and st["seq"] < r["seq"] < st["end_seq"]]
+            if not st["done_before"] and st.get("exc") in (None, "EndOfEpisodeError"):
+                for r in ex:
+                    r["books"] = model_books(r["books"], k, False)
+                if st.get("books"):
+                    st["books"] = model_books(st["books"], k, True)
             if ended:
                 # (c) every further step is refused until reset
                 probe("steps_attempted_after_end")
@@ -250,6 +281,8 @@ def execute(scenario):
                     break
             if phase is not None and meta.get("interest_arm") and any(F(r["rebalancing"]["interest"] or 0) < 0 for r in ex):
                 probe("insolvent_only_after_interest_is_charged")
+            if phase is not None and meta.get("wipeout"):
+                probe("ruin_by_a_quote_of_exactly_zero")
             if phase is not None:
                 ruin_seen = True
                 probe({"arrival": "ruin_on_arrival", "post_trade": "ruin_post_trade", "own_costs": "ruin_by_own_costs"}[phase])
